@@ -138,7 +138,7 @@ def build_frames(case):
                 position=tuple(k / 8 for k in o["pos8"]),
                 orientation=qo,
                 shape=Shape(ShapeType.BOUNDING_BOX, (1.0 + (tag % 5) / 4, 1.0 + (tag % 3) / 2, 1.5)),
-                velocity=tuple(k / 8 for k in o["vel8"]),
+                velocity=None if case.get("vel_none") else tuple(k / 8 for k in o["vel8"]),
                 semantic_score=1.0, semantic_label=Label(AutowareLabel.CAR, "car"),
                 pointcloud_num=tag, uuid=o["id"]))
             tag += 1
@@ -158,7 +158,8 @@ def snapshot(frames):
         m = f.transforms.get((FrameID.BASE_LINK, FrameID.MAP))
         out.append((f.unix_time, f.frame_name, None if m is None else m.matrix.tolist(),
                     [(o.uuid, o.pointcloud_num, o.unix_time, str(o.frame_id), tuple(o.state.position),
-                      tuple(o.state.orientation.q.tolist()), tuple(o.state.velocity), o.state.size) for o in f.objects]))
+                      tuple(o.state.orientation.q.tolist()), None if o.state.velocity is None else tuple(o.state.velocity), o.state.size,
+                      str(type(o.frame_id).__name__)) for o in f.objects]))
     return out
 
 
@@ -170,6 +171,8 @@ def observe(frames, call):
         r = call()
     except (DatasetLoadingError, IndexError, KeyError, NotImplementedError) as e:
         return {"kind": "error", "type": type(e).__name__}
+    except TypeError as e:      # e.g. arithmetic on a missing velocity: reported by the oracle, never swallowed
+        return {"kind": "error", "type": "TypeError", "msg": str(e)[:80]}
     if r is None:
         return {"kind": "none"}
     for i, f in enumerate(frames):
@@ -180,7 +183,8 @@ def observe(frames, call):
     for o in r.objects:
         objs.append({"id": o.uuid, "tag": o.pointcloud_num, "time": o.unix_time,
                      "frame": o.frame_id if isinstance(o.frame_id, str) else o.frame_id.value,
-                     "pos": [float(v) for v in o.state.position], "vel": [float(v) for v in o.state.velocity],
+                     "pos": [float(v) for v in o.state.position], "vel_none": o.state.velocity is None,
+                     "vel": [0.0, 0.0, 0.0] if o.state.velocity is None else [float(v) for v in o.state.velocity],
                      "yaw": float(o.state.orientation.yaw_pitch_roll[0]) / math.pi,
                      "q": [float(v) for v in o.state.orientation.q],
                      "size": [float(v) for v in o.state.size]})
@@ -432,6 +436,13 @@ class LookupCorr(Corr):
             stamps = [f["stamp"] for f in fr]
             out.append({"stream": "boundary", "frames": fr, "queries": boundary_queries(stamps, rng, 30 if not big else 60)})
         out += malformed_cases(rng, n_mal)
+        # objects whose velocity could not be estimated (the loader yields None): the model sees a zero velocity
+        for k, c in enumerate(out):
+            if c.get("stream") in ("typical", "boundary") and k % 6 == 2:
+                c["vel_none"] = True
+                for f in c["frames"]:
+                    for o in f["objs"]:
+                        o["vel8"] = [0, 0, 0]
         for c in out:
             fix_antipodal(c)
         return out
@@ -452,6 +463,11 @@ class LookupCorr(Corr):
             m_int = observe(frames, lambda: mgr.get_ground_truth_now_frame(unix_time=t, threshold_min_time=tol,
                                                                             interpolate_ground_truth=True))
             q = {"now": o_now, "interp": o_int}
+            if tol == 75000:
+                # the manager's documented default tolerance (75 ms) and default interpolate_ground_truth=False
+                d_now = observe(frames, lambda: mgr.get_ground_truth_now_frame(t))
+                d_int = observe(frames, lambda: mgr.get_ground_truth_now_frame(t, interpolate_ground_truth=True))
+                q["mgr_defaults"] = "same" if (d_now == o_now and d_int == o_int) else {"now": d_now, "interp": d_int}
             q["mgr_now"] = "same" if m_now == o_now else m_now
             q["mgr_interp"] = "same" if m_int == o_int else m_int
             res.append(q)
@@ -544,7 +560,12 @@ class LookupCorr(Corr):
             return f"lookup raised an unexpected exception: {obs.get('__harness_exception__')}"
         stamps = [f["stamp"] for f in case["frames"]]
         ordered = is_sorted(case)
+        if not obs["inputs_unchanged"]:
+            return "a lookup modified the loaded frames (objects, stamps or transforms of the time line differ after the queries)"
         for (t, tol), q in zip(case["queries"], obs["queries"]):
+            if q.get("mgr_defaults", "same") != "same":
+                return (f"manager lookup at t={t} with the documented default tolerance (75 ms) / default interpolate_ground_truth differs from the "
+                        f"explicit call: {str(q['mgr_defaults'])[:200]}")
             for which in ("now", "mgr_now"):
                 o = q["now"] if q[which] == "same" else q[which]
                 msg = self._oracle_now(stamps, t, tol, o)
@@ -638,6 +659,10 @@ class LookupCorr(Corr):
                     p2, y2 = global_pos(fa, o2), global_yaw(fa, o2)
                     if x["time"] != t:
                         return f"object {k} ({x['id']}) is stamped {x['time']}, not the query time"
+                    if bool(x.get("vel_none")) != bool(case.get("vel_none")):
+                        return f"object {k} ({x['id']}): velocity is {'None' if x.get('vel_none') else 'a vector'} although both neighbours carry {'none' if case.get('vel_none') else 'one'}"
+                    if x["size"] != [1.0 + (x["tag"] % 5) / 4, 1.0 + (x["tag"] % 3) / 2, 1.5]:
+                        return f"object {k} ({x['id']}): size {x['size']} is not the size of the object it derives from (tag {x['tag']})"
                     for c in range(3):
                         want = (1 - al) * p1[c] + al * p2[c]
                         if al == 0 and o1["frame"] == "map":
@@ -666,6 +691,10 @@ class LookupCorr(Corr):
                     return f"object {k} ({x['id']}, tag {x['tag']}) is not an object of the after frame"
                 src, fsrc = fa["objs"][tags2.index(x["tag"])], fa
             # kept singleton: unchanged apart from the conversion to the map frame
+            if x["size"] != [1.0 + (x["tag"] % 5) / 4, 1.0 + (x["tag"] % 3) / 2, 1.5]:
+                return f"kept object {k} ({x['id']}): size {x['size']} changed"
+            if bool(x.get("vel_none")) != bool(case.get("vel_none")):
+                return f"kept object {k} ({x['id']}): velocity None-ness changed"
             p = global_pos(fsrc, src)
             for c in range(3):
                 tolc = 0 if src["frame"] == "map" else Fraction(POS_TOL)
@@ -743,7 +772,7 @@ class LookupCorr(Corr):
              "now": {}, "interp": {}, "not_time_ordered": 0, "yaw_checked_timelines": 0,
              "tolerance_equal_to_dt": 0, "nearest_ties": 0, "alpha_zero_interpolations": 0,
              "paired_objects": 0, "kept_before_only": 0, "kept_after_only": 0, "manager_differs_from_function": 0,
-             "inputs_unchanged": 0, "query_before_first": 0, "query_after_last": 0, "query_on_frame": 0}
+             "inputs_unchanged": 0, "timelines_without_velocities": 0, "query_before_first": 0, "query_after_last": 0, "query_on_frame": 0}
         for c, o in zip(cases, obs):
             if "queries" not in o:
                 continue
@@ -753,6 +782,7 @@ class LookupCorr(Corr):
             d["not_time_ordered"] += 0 if is_sorted(c) else 1
             d["yaw_checked_timelines"] += 1 if case_yawok(c) else 0
             d["inputs_unchanged"] += 1 if o["inputs_unchanged"] else 0
+            d["timelines_without_velocities"] += bool(c.get("vel_none"))
             stamps = [f["stamp"] for f in c["frames"]]
             for (t, tol), q in zip(c["queries"], o["queries"]):
                 d["queries"] += 1
